@@ -144,12 +144,12 @@ type c20Lib struct {
 	lib     lisp.SourceLibrary
 	isFS    bool
 	inMem   bool
-	relRoot bool   // relfs with a relative RootDir
+	relRoot bool // relfs with a relative RootDir
 	// noRoot: RelativeFileSystemLibrary without a RootDir.  Nothing confines
 	// it, so only the last clause of the property is judged on it (relative
 	// locations resolve against the directory of the loading file): it is
 	// exercised through the interpreter in loader and hop contexts only.
-	noRoot bool
+	noRoot  bool
 	fsRoot  string // absolute spelled directory an FS library is rooted at
 	rec     *c20RecFS
 	lispToo bool // also exercised through the interpreter entry points
